@@ -74,6 +74,7 @@ type CellEv struct {
 	TwinDiff    int      `json:"twinDiff"` // 1: a fresh recipe with the same field values gave different results on the same bytes
 	Mutated     int      `json:"mutated"`  // 1: the recipe value changed across the calls (public fields)
 	Hidden      int      `json:"hidden"`   // 1: derived unexported fields of the caller's value became non-nil
+	PrevChg     int      `json:"prevChg"`  // >0: an earlier password changed when a later one was generated
 }
 
 func setEnv(maxTrials, failRateOne int) func() {
@@ -150,10 +151,19 @@ func charCellEvents(id int, sc Scenario, seed int64, rp *spg.CharRecipe) (events
 		prod *big.Int
 	}
 	var leaves []lf
+	// a password handed out earlier must not change when a later one is generated (shared token buffers)
+	var lastP *spg.Password
+	var lastRes GenRes
 	body := func(res *GenRes) func() {
 		return func() {
 			p, err := rp.Generate()
 			*res = ResOf(p, err, nil)
+			if lastP != nil && !reflect.DeepEqual(ResOf(lastP, nil, nil), lastRes) {
+				cell.PrevChg++
+			}
+			if err == nil && p != nil {
+				lastP, lastRes = p, *res
+			}
 		}
 	}
 	visit := func(plan []uint32, out RunOut, res GenRes) {
